@@ -545,7 +545,7 @@ def alphabet(thorough):
         o, desc = opt("smooth")
         free_sp = js[0] == "free" and ti % 2 == 1     # spatial tendon with armature on a free body: reaches support.jac_dot
         add(G.tree_model("smooth[%s]" % tn, par, js, o, tendon=True, spatial=(ti % 3 == 0 or free_sp) and "plain", gravcomp=(ti % 2 == 0),
-                         actuators=2 if (thorough or ti % 4 == 0) else 1, sensors=2 if (thorough or ti % 4 == 1) else 1,
+                         actuators=3 if ti % 4 == 0 else (2 if thorough else 1), sensors=2 if (thorough or ti % 4 == 1) else 1,
                          camera=(ti % 5 == 2), mocap=(ti % 6 == 3), tendon_armature=(ti % 4 == 2 or free_sp)), desc)
         if thorough or ti % 2 == 0:
             o, desc = opt("constr")
